@@ -208,8 +208,8 @@ class MoveDataMixin:
             return data
 
         def _module_to(data: torch.nn.Module) -> torch.nn.Module:
-            if copy:
-                data = deepcopy(data)
+            # Module._apply works in place: always convert a copy, the source object must not change
+            data = deepcopy(data)
             return data._apply(_tensor_to, recurse=True)
 
         def _mixin_to(obj: MoveDataMixin) -> MoveDataMixin:
